@@ -445,8 +445,24 @@ pub fn world_a_general_with(property: &str, scenario: &str, seed: u64, run: u64,
             plan.push(t1, r.u32() | 1, Op::SockCap { ep, cap: u32::MAX });
         }
     }
+    clock_jumps(&mut plan, seed, run, &[0, 1], if heal { sc.fault_until_us } else { sc.horizon_us });
     plan.params.insert("short_ch".into(), short_ch as f64);
     plan.end_us = sc.horizon_us;
     plan.sort();
     plan
+}
+
+/// Forward jumps of an endpoint's clock (the process was suspended, the machine slept: between two
+/// calls the local time advances by 50 ms .. 30 s more than the simulated time). Swarm style: most
+/// runs have none. All before `until_us`; drawn from a generator of their own so that the rest of
+/// the plan does not depend on them.
+pub fn clock_jumps(plan: &mut Plan, seed: u64, run: u64, eps: &[usize], until_us: u64) {
+    let mut r = Rng::keyed(&[seed, run, 0xc10c_4a]);
+    if until_us < 500_000 || eps.is_empty() || !r.chance(0.12) {
+        return;
+    }
+    for _ in 0..r.range(1, 3) {
+        let ep = *r.pick(eps);
+        plan.push(r.range(50_000, until_us), r.u32() | 1, Op::ClockJump { ep, us: r.log_range(50_000, 30_000_000) });
+    }
 }
